@@ -123,6 +123,53 @@ func machineSecrets(a *AirNode) []secret {
 	return out
 }
 
+// taintScan searches everything that left the given machines (result files,
+// recorded outputs) and every board message for every secret of each machine.
+func taintScan(w *World, airs []*AirNode) (nsecrets, nblobs, noutputs int) {
+	var outputs [][]byte
+	for _, a := range airs {
+		if a == nil {
+			continue
+		}
+		outputs = append(outputs, a.Outputs...)
+		for _, f := range a.ResultFiles() {
+			if b, err := os.ReadFile(f); err == nil {
+				outputs = append(outputs, b)
+			}
+		}
+	}
+	for _, m := range w.Board.Msgs {
+		b, _ := json.Marshal(m)
+		outputs = append(outputs, b)
+	}
+	var blobs [][]byte
+	seen := map[string]bool{}
+	for _, o := range outputs {
+		blobsOf(o, 0, &blobs, seen)
+	}
+	for i, a := range airs {
+		if a == nil || a.M == nil {
+			continue
+		}
+		for _, s := range machineSecrets(a) {
+			nsecrets++
+			if form := findSecret(blobs, s); form != "" {
+				kind := s.name
+				if j := strings.Index(kind, "/"); j >= 0 {
+					kind = kind[:j]
+				}
+				if strings.HasPrefix(kind, "dealer-polynomial-coefficient") {
+					kind = "dealer-polynomial-coefficient"
+				}
+				w.Fail("C04", "secret-leaves-machine/"+kind+"/"+form, fmt.Sprintf("machine %d: its %s appears (%s) in a result file or board message", i, s.name, form))
+			}
+		}
+	}
+	w.Stats.ProbeN("secrets-searched", nsecrets)
+	w.Stats.ProbeN("blobs-scanned", len(blobs))
+	return nsecrets, len(blobs), len(outputs)
+}
+
 func runC04(w *World, tier string) (bool, interface{}) {
 	n, t := pickNT(w, tier)
 	if n < 3 {
@@ -201,42 +248,9 @@ func runC04(w *World, tier string) (bool, interface{}) {
 	c.L.Quiesce(6)
 
 	// ---- (1) taint scan over everything that left a machine or is on the board --------
-	var outputs [][]byte
-	for _, a := range w.Airs {
-		outputs = append(outputs, a.Outputs...)
-		for _, f := range a.ResultFiles() {
-			if b, err := os.ReadFile(f); err == nil {
-				outputs = append(outputs, b)
-			}
-		}
-	}
-	for _, m := range w.Board.Msgs {
-		b, _ := json.Marshal(m)
-		outputs = append(outputs, b)
-	}
-	var blobs [][]byte
-	seen := map[string]bool{}
-	for _, o := range outputs {
-		blobsOf(o, 0, &blobs, seen)
-	}
-	nsecrets := 0
-	for i, a := range w.Airs {
-		for _, s := range machineSecrets(a) {
-			nsecrets++
-			if form := findSecret(blobs, s); form != "" {
-				kind := s.name
-				if j := strings.Index(kind, "/"); j >= 0 {
-					kind = kind[:j]
-				}
-				if strings.HasPrefix(kind, "dealer-polynomial-coefficient") {
-					kind = "dealer-polynomial-coefficient"
-				}
-				w.Fail("C04", "secret-leaves-machine/"+kind+"/"+form, fmt.Sprintf("machine %d: its %s appears (%s) in a result file or board message", i, s.name, form))
-			}
-		}
-	}
-	w.Stats.ProbeN("secrets-searched", nsecrets)
-	w.Stats.ProbeN("blobs-scanned", len(blobs))
+	nsecrets, nblobs, noutputs := taintScan(w, w.Airs)
+	outputs := make([][]byte, noutputs)
+	blobs := make([][]byte, nblobs)
 	// ---- (2) a deal can be opened by its addressee only ------------------------------------
 	deals := 0
 	for _, m := range w.Board.Msgs {
